@@ -1244,6 +1244,8 @@ class MindsDBParser(Parser):
     def from_table_aliased(self, p):
         entity = p.from_table
         if hasattr(p, 'identifier'):
+            if len(p.identifier.parts) > 1:
+                raise ParsingException('Alias can not contain multiple parts (dots).')
             entity.alias = p.identifier
         if hasattr(p, 'dquote_string'):
             entity.alias = Identifier(p.dquote_string)
@@ -1337,6 +1339,8 @@ class MindsDBParser(Parser):
             alias = Identifier(p.quote_string)
         else:
             alias = p.identifier
+        if len(alias.parts) > 1:
+            raise ParsingException('Alias can not contain multiple parts (dots).')
         col.alias = alias
         return col
 
